@@ -1,7 +1,9 @@
 #!/bin/sh
 # development helper: run every check of a tier in sequence, print one line per property
 TIER=${1:-quick}
-for p in C01 C02 C03 C04 C05 C06 C07 C08 C09 C10 C11 C12 C13 C14 C15 C16 C17 C18 C19 C20; do
+shift 2>/dev/null
+PROPS=${*:-C01 C02 C03 C04 C05 C06 C07 C08 C09 C10 C11 C12 C13 C14 C15 C16 C17 C18 C19 C20}
+for p in $PROPS; do
   s=$(date +%s)
   mkdir -p build/sweep
   python3 verif.py check $p --tier $TIER > build/sweep/$TIER-$p.log 2>&1
